@@ -1,14 +1,87 @@
 ---- MODULE Views ----
-\* Graph views over a dataset (sophia_api::graph::adapter) and their mutation semantics (C11).
+\* Graph views over a dataset (sophia_api::graph::adapter) and the graph-as-dataset wrapper
+\* (sophia_api::dataset::adapter), with their mutation semantics (C11), structured like the adapters:
+\* every view operation is expressed through the underlying store's own operation.
 EXTENDS Naturals, Sequences, FiniteSets, TLC
-DG == [k |-> "dg"]
-SeqToSet(s) == {s[i] : i \in 1..Len(s)}
-Count(s, x) == Cardinality({i \in 1..Len(s) : s[i] = x})
-Tr(q) == <<q[1], q[2], q[3]>>
-\* expected triples of a view selecting the graphs in G, with multiplicity bounds
-Sel(quads, G) == {q \in quads : q[4] \in G}
-ViewOk(rows, quads, G) ==
-  /\ SeqToSet(rows) = {Tr(q) : q \in Sel(quads, G)}
-  /\ \A t \in SeqToSet(rows) : Count(rows, t) >= 1 /\ Count(rows, t) <= Cardinality({q \in Sel(quads, G) : Tr(q) = t})
-GraphNames(quads) == {q[4] : q \in quads}
+CONSTANTS Triples,      \* a few abstract triples
+          Names,        \* graph names that may be used for insertion
+          DG,           \* the default graph
+          Absent        \* a graph name never used for insertion
+VARIABLES quads,        \* the dataset: set of <<triple, graph>>
+          gstore,       \* a separate plain graph (set of triples) seen through GraphAsDataset
+          last          \* the last step: [kind, op, t, g, flag, pre, gpre]
+vars == <<quads, gstore, last>>
+Graphs == Names \cup {DG}
+AllG == Graphs \cup {Absent}
+Tr(q) == q[1]
+None == [kind |-> "none"]
+
+\* ---- the underlying stores (QuadStore semantics) ----
+DInsert(qs, t, g) == [st |-> qs \cup {<<t, g>>}, flag |-> <<t, g>> \notin qs]
+DRemove(qs, t, g) == [st |-> qs \ {<<t, g>>}, flag |-> <<t, g>> \in qs]
+DMatch(qs, T, G) == {q \in qs : q[1] \in T /\ q[2] \in G}                 \* quads_matching(sm,pm,om,gm), matchers as sets
+
+\* ---- dataset -> graph views, as the adapters define them ----
+GraphTriples(qs, g) == {Tr(q) : q \in DMatch(qs, Triples, {g})}           \* DatasetGraph: quads_matching(Any,Any,Any,[g])
+UnionTriples(qs) == {Tr(q) : q \in DMatch(qs, Triples, AllG)}             \* UnionGraph: quads_matching(.., Any)
+PartialTriples(qs, G) == {Tr(q) : q \in DMatch(qs, Triples, G)}           \* PartialUnionGraph: quads_matching(.., m)
+\* multiplicity of a triple in a union view (one copy per selected graph holding it)
+Mult(qs, G, t) == Cardinality({q \in qs : q[1] = t /\ q[2] \in G})
+
+\* ---- graph -> dataset wrapper, as GraphAsDataset defines it ----
+AsQuads(gs) == {<<t, DG>> : t \in gs}
+AsMatch(gs, T, G) == IF DG \in G THEN {<<t, DG>> : t \in {x \in gs : x \in T}} ELSE {}
+AsContains(gs, t, g) == IF g = DG THEN t \in gs ELSE FALSE
+AsInsert(gs, t, g) == IF g = DG THEN [st |-> gs \cup {t}, res |-> IF t \notin gs THEN "true" ELSE "false"]
+                      ELSE [st |-> gs, res |-> "OnlyDefaultGraph"]
+AsRemove(gs, t, g) == IF g = DG THEN [st |-> gs \ {t}, res |-> IF t \in gs THEN "true" ELSE "false"]
+                      ELSE [st |-> gs, res |-> "false"]
+
+Init == quads = {} /\ gstore = {} /\ last = None
+Direct(op, t, g) ==
+  LET r == IF op = "ins" THEN DInsert(quads, t, g) ELSE DRemove(quads, t, g) IN
+  /\ quads' = r.st /\ UNCHANGED gstore
+  /\ last' = [kind |-> "direct", op |-> op, t |-> t, g |-> g, flag |-> r.flag, pre |-> quads]
+\* DatasetGraph<&mut D>::insert/remove = d.insert/remove(s, p, o, g)
+ViaGraphMut(op, t, g) ==
+  LET r == IF op = "ins" THEN DInsert(quads, t, g) ELSE DRemove(quads, t, g) IN
+  /\ quads' = r.st /\ UNCHANGED gstore
+  /\ last' = [kind |-> "graph_mut", op |-> op, t |-> t, g |-> g, flag |-> r.flag, pre |-> quads]
+ViaAsDataset(op, t, g) ==
+  LET r == IF op = "ins" THEN AsInsert(gstore, t, g) ELSE AsRemove(gstore, t, g) IN
+  /\ gstore' = r.st /\ UNCHANGED quads
+  /\ last' = [kind |-> "as_dataset", op |-> op, t |-> t, g |-> g, flag |-> r.res, pre |-> gstore]
+Next == \E op \in {"ins", "rem"}, t \in Triples, g \in AllG :
+          \/ (g # Absent /\ Direct(op, t, g))
+          \/ (IF op = "ins" THEN g # Absent ELSE TRUE) /\ ViaGraphMut(op, t, g)
+          \/ ViaAsDataset(op, t, g)
+Spec == Init /\ [][Next]_vars
+
+\* ---- properties ----
+\* a mutation through graph_mut(g) changes graph g only, exactly like the direct call, with the same flag
+FrameCondition ==
+  last.kind \in {"direct", "graph_mut"} =>
+    /\ \A g2 \in AllG \ {last.g} : GraphTriples(quads, g2) = GraphTriples(last.pre, g2)
+    /\ quads = (IF last.op = "ins" THEN DInsert(last.pre, last.t, last.g) ELSE DRemove(last.pre, last.t, last.g)).st
+    /\ last.flag = (IF last.op = "ins" THEN DInsert(last.pre, last.t, last.g) ELSE DRemove(last.pre, last.t, last.g)).flag
+    /\ last.flag = (quads # last.pre)
+\* every view shows exactly the triples of the corresponding quads; pattern queries through a view = filter
+ViewsCoherent ==
+  /\ \A g \in AllG : GraphTriples(quads, g) = {q[1] : q \in {x \in quads : x[2] = g}}
+  /\ UnionTriples(quads) = {q[1] : q \in quads}
+  /\ \A G \in SUBSET AllG : PartialTriples(quads, G) = UNION {GraphTriples(quads, g) : g \in G}
+  /\ \A G \in SUBSET AllG, T \in SUBSET Triples :
+        {Tr(q) : q \in DMatch(quads, T, G)} = PartialTriples(quads, G) \cap T
+  /\ GraphTriples(quads, Absent) = {}
+  /\ \A t \in UnionTriples(quads) : Mult(quads, AllG, t) >= 1
+\* a graph seen as a dataset: exactly its triples, in the default graph only
+AsDatasetCoherent ==
+  /\ \A T \in SUBSET Triples, G \in SUBSET AllG :
+        AsMatch(gstore, T, G) = {q \in AsQuads(gstore) : q[1] \in T /\ q[2] \in G}
+  /\ \A t \in Triples, g \in AllG : AsContains(gstore, t, g) = (<<t, g>> \in AsQuads(gstore))
+  /\ last.kind = "as_dataset" =>
+        /\ (last.g # DG => gstore = last.pre /\ last.flag = (IF last.op = "ins" THEN "OnlyDefaultGraph" ELSE "false"))
+        /\ (last.g = DG => last.flag = (IF gstore # last.pre THEN "true" ELSE "false"))
+        /\ (last.g = DG /\ last.op = "rem" => last.t \notin gstore)
+        /\ (last.g = DG /\ last.op = "ins" => last.t \in gstore)
 ====
